@@ -1,5 +1,7 @@
 package server
 
+import "github.com/resgateio/resgate/server/verifhook"
+
 type gcState byte
 
 const (
@@ -90,6 +92,20 @@ func (c *wsConn) tryDelete(s *Subscription) {
 		r.state = gcStateDelete
 		return gcStateDelete
 	})
+
+	if verifhook.Enabled && sent {
+		// a kept (still sent) child of a sent subscription that is about to be disposed: Dispose will not count
+		// down the child's sent count (site of a recorded finding)
+		for _, ref := range refs {
+			if ref.state == gcStateDelete {
+				for crid := range ref.sub.refs {
+					if cr, ok := refs[crid]; ok && cr.state == gcStateKeep {
+						verifhook.Site("dispose.sent", c.cid, crid)
+					}
+				}
+			}
+		}
+	}
 
 	for rid, ref := range refs {
 		switch ref.state {
